@@ -146,7 +146,7 @@ class MapGen:
         # ---- MRGN
         nslots = 64 if variant == "mrgn64" else (255 if form == "editor" else rng.choice([64, 255, 255]))
         locs = {}
-        for slot in (list(range(1, nslots + 1)) if variant == "mrgn-full" else rng.sample(range(1, nslots + 1), rng.randrange(1, 6)) + [64]):
+        for slot in (list(range(1, nslots + 1)) if variant == "mrgn-full" else [x for x in rng.sample(range(1, nslots + 1), rng.randrange(1, 6)) if variant != "no-anywhere" or x != 64] + ([64] if variant != "no-anywhere" else [])):
             fl = rng.randrange(0, 64) if form == "editor" else rng.choice([0, 63, rng.randrange(0, 65536)])
             locs[slot] = {"_left_x1": rng.randrange(0, 4096), "_top_y1": rng.randrange(0, 4096), "_right_x2": rng.randrange(0, 8192), "_bottom_y2": rng.randrange(1, 8192),
                           "_string_id": sref(), "_elevation_flags": fl}
